@@ -292,6 +292,10 @@ def replay_tcp_parse(body):
     scenarios.append(('complete', frame, 'deliver'))
     scenarios.append(('complete+tail', frame + b'tail', 'deliver'))
     scenarios.append(('garbage-payload', struct.pack('i', 5) + b'\x00\x01\x02\x03\x04rest', 'disconnect'))
+    for nm, raw in (('zlib-valid-empty-pickle', b''), ('zlib-valid-truncated-pickle', pickle.dumps({'a': [1, 2, 3]})[:-3]),
+                    ('zlib-valid-unknown-class', b'cno_such_module\nNoSuchClass\n.')):
+        zz = zlib.compress(raw, 3)
+        scenarios.append((nm, struct.pack('i', len(zz)) + zz + b'tail', 'disconnect'))
     for name, buf, want in scenarios:
         delivered = []
         c = TcpConnection(FakePoller(), onMessageReceived=delivered.append, socket=FakeSock())
